@@ -161,7 +161,9 @@ theorem C10F_wills_dropped_without_link :
 /-- **VIOLATED ("registered wills are forwarded when the connection closes")**: while `Close` writes the INIT and the will
 commands to the leader, the link's reader relays the leader's first answers to the client that has gone; the second such
 write fails, the reader returns and CLOSES the link — the wills not written by then are lost (`closeCut 0 2`: of INIT +
-three wills only INIT and the first will went out). Which prefix goes out is a race inside the node; any is possible. -/
+three wills only INIT and the first will went out). Which prefix goes out is a race inside the node; any is possible.
+(A second cause of the same outcome, seen with real processes: `Close` closes the socket right after the last write while
+answers are unread — RST, the unsent tail of the wills is discarded by the kernel.) -/
 theorem C10F_wills_cut_short_violated :
     (runOut {} [.accept .binary, .request 0 false (.init 1 9), .leaderMsg 0 (.initRes 1 0 12) false,
         .request 0 false (.will .unlock (demoCmd 2 10 0 0)), .request 0 false (.will .lock (demoCmd 3 11 0 0)),
